@@ -13,7 +13,7 @@ func init() {
 	Registry["C17"] = c17
 	Metas["C17"] = Meta{Level: "other", NeedCG: true,
 		Technique: "static analysis: edge-dominance and all-paths predicates on the part-insertion effects, bound-before-allocation on the peer-supplied part count, guard discipline of the recursive Merkle proof walk, decode-only-when-complete ordering",
-		Explain:   "Static analysis of gemmill/types/part_set.go, go-merkle/simple_tree.go and their use in the consensus state. Decided: (R1) the three insertion effects of PartSet.AddPart (slot store, bit set, count++) are edge-dominated by both index bounds and by the slot being empty, and on every path either verification was not requested or Proof.Verify(part.Index, total, part.Hash(), set hash) returned true; (R2) parts received from peers are always verified (verify = peerKey != \"\" in handleMsg; replay passes the logged peer key); (R3) the peer-supplied part count is bounded on both sides before NewPartSetFromHeader allocates, and only a proposal with a valid proposer signature installs a part set; (R4) computeHashFromAunts returns a hash only for 0<=index<total, returns the leaf only when no aunts are left, indexes the aunts only when non-empty and recurses on strictly smaller totals; SimpleProof.Verify accepts only a non-nil computed hash equal to the root; (R5) the block is decoded only from a complete set that this part completed, with the MaxBlockSize limit, and the decode error is tested before the block is used. (R6) encoder buffers are owned by the call that returns their bytes; (R7) the reassembly reader never surfaces a part's own EOF. NOT decided: second-preimage resistance of the tree, exact reassembly for all inputs.",
+		Explain:   "Static analysis of gemmill/types/part_set.go, go-merkle/simple_tree.go and their use in the consensus state. Decided: (R1) the three insertion effects of PartSet.AddPart (slot store, bit set, count++) are edge-dominated by both index bounds and by the slot being empty, and on every path either verification was not requested or Proof.Verify(part.Index, total, part.Hash(), set hash) returned true; (R2) parts received from peers are always verified (verify = peerKey != \"\" in handleMsg; replay passes the logged peer key); (R3) the peer-supplied part count is bounded on both sides before NewPartSetFromHeader allocates, and only a proposal with a valid proposer signature installs a part set; (R4) computeHashFromAunts returns a hash only for 0<=index<total, returns the leaf only when no aunts are left, indexes the aunts only when non-empty, recurses on strictly smaller totals, and builds every non-leaf result from exactly one non-nil recursive walk over aunts[:len-1] and aunts[len-1] (so the number of aunts is exact: surplus aunts are rejected); SimpleProof.Verify accepts only a non-nil computed hash equal to the root; (R5) the block is decoded only from a complete set that this part completed, with the MaxBlockSize limit, and the decode error is tested before the block is used. (R6) encoder buffers are owned by the call that returns their bytes; (R7) the reassembly reader never surfaces a part's own EOF. NOT decided: second-preimage resistance of the tree, exact reassembly for all inputs.",
 		Assume:    []string{"the hash function is collision resistant", "go-wire honours its limit argument (C18-R2)"},
 	}
 }
@@ -163,6 +163,31 @@ func c17R4(c *Ctx) {
 					{"total==1", cfgx.Equals("(a1 == 1)")},
 					{"no-aunts-left", cfgx.Equals("(len(a3) == 0)")},
 				})
+			} else {
+				// exact aunt count by structural induction: the only place that accepts "no aunts left"
+				// is the leaf return, so every other hash must be built from a recursive walk over the
+				// remaining aunts (non-nil) and the last aunt; a hash assembled without the recursion
+				// accepts proofs with surplus aunts
+				ok := false
+				why := "returns " + shorten(cfgx.Expr(v))
+				if call, isCall := v.(*ssa.Call); isCall && len(call.Call.Args) == 2 {
+					if cal := call.Call.StaticCallee(); cal != nil && cal.Name() == "SimpleHashFromTwoHashes" {
+						nrec, naunt := 0, 0
+						for _, a := range call.Call.Args {
+							e := cfgx.Expr(a)
+							switch {
+							case strings.HasPrefix(e, "gemmill/modules/go-merkle.computeHashFromAunts(") && strings.HasSuffix(e, ",a2,a3[:(len(a3) - 1)])"):
+								if f.HasGuard(r, cfgx.Equals("("+e+" != nil)")) {
+									nrec++
+								}
+							case e == "a3[(len(a3) - 1)]":
+								naunt++
+							}
+						}
+						ok = nrec == 1 && naunt == 1
+					}
+				}
+				c.R.Ob(rule, "inner-return:hash(recursive-walk,last-aunt):"+shorten(cfgx.Expr(v)), ok, c.Pos(r), fname(f), "a non-leaf result must be SimpleHashFromTwoHashes of the (non-nil) recursive walk over aunts[:len-1] and aunts[len-1]; "+why)
 			}
 		}
 		if n < 3 {
